@@ -40,7 +40,10 @@ CHECKS = {
             'get_nowait() is treated as an internal helper (it needs the dequeue lock) and is not '
             'used as a consumer mode',
             'with several producers max_enqueuer is set to the number of producers, as every '
-            'in-repo caller does'],
+            'in-repo caller does',
+            'coroutine consumers that share ONE async dequeue iterator are judged on exactly-once and '
+            'termination only: which of them gets which element, and in which order, depends on the order in '
+            'which their pending batches complete'],
         'probes': [],
     },
     'C05': {
